@@ -27,6 +27,7 @@ theorem inv_step_ncmp (c : Cfg) (s s' : State) (f : Nat) (hi : Inv c s)
   obtain ⟨g1, g2, g3, g4, g5, g6, g7, g8, -⟩ := hi
   obtain ⟨a1, a2, a3, a4, a5, a6, a7, a8, a9, a10, a11, a12, a13, a14, a15, a16, a17, a18, a19, a20, a21, a22, a23, a24, a25, a26, a27, a28⟩ := hF f hf
   cases hs
+  case incRead => tee_all
   case cmp => tee_all
 
 theorem inv_step_get (c : Cfg) (s s' : State) (f : Nat) (hi : Inv c s)
